@@ -579,21 +579,23 @@ func (s *Stream) StartMessageRead(ctx context.Context) error {
 
 // readNextFrame reads the next frame and appends to receive buffer
 func (s *Stream) readNextFrame(ctx context.Context) error {
-	frameData, endFlag, err := s.ReceiveFrameWithEnd(ctx)
-	if err != nil {
-		return err
+	// Iterate rather than recurse: a peer can send any number of (even empty)
+	// partial frames, and one stack frame per wire frame overflows the stack.
+	for {
+		frameData, endFlag, err := s.ReceiveFrameWithEnd(ctx)
+		if err != nil {
+			return err
+		}
+
+		// Append frame data to receive buffer
+		s.receiveBuffer = append(s.receiveBuffer, frameData...)
+		s.totalMsgBytes = len(s.receiveBuffer)
+
+		// If this is not the final frame, read more frames
+		if endFlag != EndFlagPartial {
+			return nil
+		}
 	}
-
-	// Append frame data to receive buffer
-	s.receiveBuffer = append(s.receiveBuffer, frameData...)
-	s.totalMsgBytes = len(s.receiveBuffer)
-
-	// If this is not the final frame, read more frames
-	if endFlag == EndFlagPartial {
-		return s.readNextFrame(ctx) // Recursively read until complete message
-	}
-
-	return nil
 }
 
 // ReceiveCompleteMessage receives a complete message, reading multiple frames if necessary
